@@ -1,5 +1,10 @@
 package websocket
 
+import (
+	"errors"
+	"io"
+)
+
 // C11 (WebSocket part) — pooled-buffer ownership across Parse, message
 // dispatch, control-frame replies, write failures and CloseAndClean.
 
@@ -98,3 +103,53 @@ func verifHarness_C11_ws_write() {
 	verifAssertD(tr.frees == tr.mallocs, "every-frame-buffer-released-exactly-once", "")
 	verifAssert(false, "witness")
 }
+
+
+// a compressed final frame whose decompressor fails, ends early or inflates
+// beyond the limit: every buffer involved is released exactly once
+func verifHarness_C11_ws_decompress_failure() {
+	tr := verifNewTracker()
+	ep := verifNewEndpoint(false, true, 0, tr)
+	ep.u.MessageLengthLimit = 1 + verifChoose("limit", 3)
+	r := &verifC11Reader{mode: verifChoose("reader", 4)}
+	ep.u.WebsocketDecompressor = func(c *Conn, rd io.Reader) io.ReadCloser { return r }
+	frames := [][]byte{
+		{0x80 | 0x40 | byte(BinaryMessage), 2, 0x01, 0x02},
+		{0x40 | byte(BinaryMessage), 1, 0x01, 0x80, 1, 0x02},
+	}
+	err := ep.c.Parse(frames[verifChoose("fragmented", 2)])
+	ep.c.CloseAndClean(err)
+	verifAssertD(tr.frees <= tr.mallocs, "no-more-frees-than-allocations", "")
+	verifAssert(false, "witness")
+}
+
+type verifC11Reader struct {
+	mode  int
+	calls int
+}
+
+func (r *verifC11Reader) Read(p []byte) (int, error) {
+	r.calls++
+	switch r.mode {
+	case 0: // fails at once
+		return 0, errors.New("verif: corrupt deflate stream")
+	case 1: // some bytes, then an error
+		if r.calls == 1 && len(p) > 0 {
+			p[0] = 'x'
+			return 1, nil
+		}
+		return 0, errors.New("verif: corrupt deflate stream")
+	case 2: // inflates without end (bomb)
+		for i := range p {
+			p[i] = 'y'
+		}
+		return len(p), nil
+	}
+	// well-behaved: one byte then EOF
+	if r.calls == 1 && len(p) > 0 {
+		p[0] = 'z'
+		return 1, io.EOF
+	}
+	return 0, io.EOF
+}
+func (r *verifC11Reader) Close() error { return nil }
